@@ -54,6 +54,7 @@ ASSUMPTIONS = [
 
 # a small menu of grid shapes: every new shape costs seconds of one-off XLA compiles in place_objects
 SHAPES = ((12, 8, 8), (8, 13, 9), (9, 8, 12))
+KINDS = ("uniform_plane", "gaussian_plane", "dipole_e", "dipole_m")
 LIN = ("field", "phasor")
 QUAD = ("energy", "poynting")
 
@@ -120,6 +121,11 @@ def _open_interior(shape, faces):
     return out
 
 
+def _rotated(seq, k):
+    k %= len(seq)
+    return tuple(seq[k:]) + tuple(seq[:k])
+
+
 def _fix_poynting_axis(d):
     """A flux plane with a second size-1 axis has no determinable normal (fdtdx then leaves the detector half
     initialised): name the normal explicitly, which is what a user has to do for such a region."""
@@ -131,7 +137,10 @@ def _fix_poynting_axis(d):
 
 @st.composite
 def case_strategy(draw, ctx):
-    shape = list(draw(st.sampled_from(SHAPES)))
+    # Hypothesis' first example is the all-minimal one: rotate the menus per (seed, shard, lane) so that the workers
+    # of one run do not all spend an example on the same case
+    rot = int(getattr(ctx, "seed", 0)) * 7 + int(getattr(ctx, "shard", 0)) * 4 + (2 if getattr(ctx, "lane", "") == "f32" else 0)
+    shape = list(SHAPES[(draw(st.integers(0, len(SHAPES) - 1)) + rot) % len(SHAPES)])
     steps = draw(st.integers(12, 32))
     faces = draw(scenes.faces_strategy(kinds=("none", "pec", "pmc", "periodic", "pml", "pml"), pml_thickness=(2, 4)))
     _fit_pml(shape, faces, 4)
@@ -142,7 +151,7 @@ def case_strategy(draw, ctx):
     t_common = 6 * draw(st.integers(0, (steps - 1) // 6))  # a step (multiple of every interval) at which most sources are on
     sources = []
     for i in range(n_src):
-        s = draw(scenes.source_strategy(shape, steps, faces, name=f"src{i}", switches=False,
+        s = draw(scenes.source_strategy(shape, steps, faces, name=f"src{i}", switches=False, kinds=_rotated(KINDS, rot // 3 + i),
                                         interior=_open_interior(shape, faces)))
         s["amp"] = draw(st.sampled_from([1.0, 0.5, 2.0, -1.5, 0.3, -0.7]))
         overlap = draw(st.integers(0, 7)) > 0
